@@ -94,12 +94,20 @@ func sanitizersForAttributeValue(c context) ([]string, error) {
 		}
 	}
 	if sc0 == sanitizationContextURLSet && (c.attr.value != "" || c.attr.ambiguousValue) {
-		// The static prefix and the data form the URL of the first image candidate together.
+		// The static text of an image candidate and the data form the URL of that candidate together.
 		if c.attr.ambiguousValue {
 			return nil, fmt.Errorf("actions must not occur after an ambiguous URL prefix in the %q attribute value context of a %q element", c.attr.name, c.element.name)
 		}
-		if err := validateURLPrefix(c.attr.value); err != nil {
-			return nil, fmt.Errorf("action cannot be interpolated into the %q URL attribute value of this %q element: %s", c.attr.name, c.element.name, err)
+		prefix := c.attr.value
+		if strings.IndexByte(prefix, '&') == -1 {
+			// Without character references that could hide a comma or white space, only the
+			// image candidate that the action continues matters.
+			prefix = srcsetCandidatePrefix(prefix)
+		}
+		if prefix != "" {
+			if err := validateURLPrefix(prefix); err != nil {
+				return nil, fmt.Errorf("action cannot be interpolated into the %q URL attribute value of this %q element: %s", c.attr.name, c.element.name, err)
+			}
 		}
 	}
 	// ret is a stack of sanitizer names that will be built in reverse.
@@ -192,6 +200,36 @@ func sanitizationContextForAttrVal(element, attr, linkRel string) (sanitizationC
 // This pattern is conservative and matches only a subset of the valid names defined in
 // https://html.spec.whatwg.org/multipage/dom.html#embedding-custom-non-visible-data-with-the-data-*-attributes
 var dataAttributeNamePattern = regexp.MustCompile(`^data-[a-z_][-a-z0-9_]*$`)
+
+// srcsetCandidatePrefix returns the beginning of the URL of the image candidate that an
+// action after the static srcset text value continues: the text after the last comma, without
+// leading white space. It returns "" if that text already contains white space, since the URL of
+// the candidate is then complete.
+//
+// See https://html.spec.whatwg.org/multipage/images.html#parse-a-srcset-attribute.
+func srcsetCandidatePrefix(value string) string {
+	start := 0
+	for i := 0; i < len(value); i++ {
+		if value[i] == ',' {
+			start = i + 1
+		}
+	}
+	for start < len(value) && isSrcsetWhiteSpace(value[start]) {
+		start++
+	}
+	for i := start; i < len(value); i++ {
+		if isSrcsetWhiteSpace(value[i]) {
+			return ""
+		}
+	}
+	return value[start:]
+}
+
+// isSrcsetWhiteSpace reports whether c is ASCII whitespace.
+// See https://infra.spec.whatwg.org/#ascii-whitespace.
+func isSrcsetWhiteSpace(c byte) bool {
+	return c == ' ' || c == '\t' || c == '\n' || c == '\f' || c == '\r'
+}
 
 // endsWithCharRefPrefixPattern matches strings that end in an incomplete
 // HTML character reference.
